@@ -61,3 +61,41 @@ fn z_c07() {
         println!("C07 {} {} {} D {} {} M {} {}", sb, ob, raw, dt, dp, mt, mp);
     }
 }
+
+/// NVH_Z_GATES = lines "gates word" (decimal).  Decodes a one-block type-31 message (REF) with that
+/// gate count and word size through the public decoder and prints the length of the gate buffer the
+/// real code allocated: "GATES <gates> <word> <len or ERR>".  The input carries gates * (word / 8)
+/// gate bytes, so a correct decoder succeeds and reports exactly that length.
+#[test]
+fn z_gates() {
+    let inp = match std::env::var("NVH_Z_GATES") {
+        Ok(s) => s,
+        Err(_) => return,
+    };
+    for line in inp.lines() {
+        let p: Vec<&str> = line.split_whitespace().collect();
+        if p.len() != 2 {
+            continue;
+        }
+        let (gates, word): (u16, u8) = (p[0].parse().unwrap(), p[1].parse().unwrap());
+        let want = gates as usize * (word as usize / 8);
+        let mut b = vec![0u8; 32 + 4 + 28 + want];
+        b[31] = 1;
+        b[35] = 36;
+        b[36] = b'D';
+        b[37] = b'R';
+        b[38] = b'E';
+        b[39] = b'F';
+        b[44] = (gates >> 8) as u8;
+        b[45] = gates as u8;
+        b[55] = word;
+        let mut c = std::io::Cursor::new(&b[..]);
+        match nexrad_decode::messages::digital_radar_data::decode_digital_radar_data(&mut c) {
+            Ok(m) => match &m.reflectivity_data_block {
+                Some(r) => println!("GATES {} {} {}", gates, word, r.encoded_data.len()),
+                None => println!("GATES {} {} ERR", gates, word),
+            },
+            Err(_) => println!("GATES {} {} ERR", gates, word),
+        }
+    }
+}
